@@ -67,8 +67,15 @@ func TestShapesIntoOneWriter(t *testing.T) {
 			}
 			wg.Wait()
 		} else {
+			// one after the other; half the time ONE renderer object renders all parts (they differ in size)
+			one := r.mk(cells)
+			same := !mixed && rapid.Bool().Draw(t, "one-renderer-object")
 			for i, p := range parts {
-				rs[i].mk(cells).Render(p, w)
+				if same {
+					one.Render(p, w)
+				} else {
+					rs[i].mk(cells).Render(p, w)
+				}
 			}
 		}
 		w.Close()
